@@ -53,6 +53,10 @@ def trees():
         ["Cosine", ["Add", ["Multiply", ["const", 2], X], ["Multiply", ["const", 3], Y], Z]],
         ["NthRoot", ["Add", ["Multiply", X, X], ["Multiply", Y, Y]], 2],
         ["Add", ["Power", X, Y], ["Power", Y, X]],
+        # two variables whose partial derivatives are the same sum / product with the operands in a different order
+        ["Add", ["Multiply", X, ["Add", Z, ["const", 1]]], ["Multiply", Y, ["Add", ["const", 1], Z]]],
+        ["Add", ["Multiply", X, ["Multiply", Z, ["Sine", Z]]], ["Multiply", Y, ["Multiply", ["Sine", Z], Z]]],
+        ["Multiply", ["Add", X, ["Multiply", Z, Z]], ["Add", ["Multiply", Z, Z], Y]],
     ]
 
 
@@ -72,6 +76,12 @@ def jobs(tier, seed):
                 if len(vs) >= 3:
                     js.append({"mode": "order", "d": d, "op": op, "supplied": vs[:1], "perm": [0]})
                 js.append({"mode": "order", "d": d, "op": op, "supplied": [], "perm": []})
+    # the same expression OBJECT was evaluated before at another point: a remembered result must not be matched by position or by written order
+    for d in trees()[::2] + [["Minus", X, Y], ["Divide", X, Y], ["Power", X, Y]]:
+        vs = rt.variables_of(d)
+        for op in ("eval", "fwd", "rev_all", "diff_at_early_all"):
+            js.append({"mode": "order", "d": d, "op": op, "perm": list(range(len(vs)))[::-1], "pre_at": "eval" if op != "eval" else "all"})
+    js.append({"mode": "order", "d": ["Add", ["Multiply", ["var", "a"], ["Add", X, Y, Z]], ["Multiply", ["var", "b"], ["Add", Z, Y, X]]], "op": "asexp_rev", "perm": [4, 3, 2, 1, 0]})
     # one-variable expressions at points that carry extra coordinates (Derivative accepts a Point too)
     for d in [["NthPower", X, 2], ["Multiply", X, ["Exponential", X]], ["Logarithm", X], ["Divide", ["Sine", X], X]]:
         for extra in (["t"], ["a", "t"], ["zz", "a"]):
@@ -95,7 +105,7 @@ def prepare(spec, ctx):
     names = spec.get("supplied", rt.variables_of(spec["d"]))
     ctx.consts, ctx.env, ctx.int_names, ctx.assume = {}, {}, set(), []
     sx.PARAM_NAMES.clear()
-    for n in names:
+    for n in list(names) + (["q_" + n for n in names] if spec.get("pre_at") else []):
         c = z3.Real(n)
         ctx.consts[n] = c
         ctx.env[n] = sx.SymReal(c)
